@@ -172,6 +172,7 @@ SPEC['C20'] = ('Incremental builds abort only for violations that exist now', ['
   ('C20_write_abort_only_then', 'Local', 'sess_write_abort_only', 'aborts of a write come only from that diagnosis'),
   ('C20_read_abort_only_then', 'Local', 'sess_read_hidden_only', 'aborts of a read come only from a recorded writer that is not a transitive dependency'),
   ('C20_dynamic_refuted_overlap', 'Findings', 'C20_dynamic_refuted_overlap', 'recorded finding (O5a)'),
+  ('C20_dynamic_refuted_overlap_bottom_up', 'Findings', 'C20_dynamic_refuted_overlap_bottom_up', 'recorded finding (O5a, bottom-up form): after a round trip of the writer role, each switch reported to a bottom-up build, no recorded dependency relates the old and the new writer; the build runs them in the order of their stale ranks, the new writer first'),
   ('C20_dynamic_refuted_cycle', 'Findings', 'C20_dynamic_refuted_cycle', 'recorded finding (O5b)'),
   ('C20_dynamic_refuted_hidden', 'Findings', 'C20_dynamic_refuted_hidden', 'recorded finding (O5c)'),
 ], 'Aborts are decided on RECORDED dependencies; three role-inversion patterns where recorded and current behaviour differ are recorded findings.')
